@@ -370,7 +370,7 @@ static void probe_empty_text(void)
         if (len == FAIL) printf("fail\n"); else { Hgetelement(fid, TAGOF[type], rf, rb); hk_hex(rb, (size_t)len); printf("\n"); }
         if (r == FAIL && len != FAIL)
             hk_fail("an-write-empty", "ANwriteann(type %d, empty text) returns FAIL but leaves a %d-byte annotation element in the file", type, (int)len);
-        else if (r == FAIL) hk_fail("an-write-empty", "ANwriteann(type %d, empty text) fails", type);
+        else if (r == FAIL) hk_stat("empty_text_refused", 1); /* refused before anything is created (3d2a8cf): nothing was written, nothing to return */
     }
     if (ANend(an) == FAIL) hk_fail("an-end", "ANend");
     Hclose(fid); fid = FAIL;
